@@ -12,6 +12,9 @@ def build(tier):
     for k in ("function", "macro"):
         for np_ in ((0, 1, 3) if quick else (0, 1, 2, 3, 4)):
             obs.append(renders.render_ob("C03.b", k, dict(np=np_), (0,), 2 if quick else 3, timeout=300 if quick else 1200))
+    obs += steps.step_obligations('C03.a', ['function', 'macro', 'cmake_parse_arguments', 'endmacro'], tier, 1, 1, free=True, symkw=True, symargs=True, tl=1, dl=2,
+                                  deepd=8 if quick else 24, preargs=['q%d' % i for i in range(12 if quick else 40)],
+                                  arities={'function': [2], 'macro': [2], 'cmake_parse_arguments': [2], 'endmacro': [0]})
     # C03.c whole sequences with the free regex shim and three DISTINCT patterns: the pattern of this kind is applied to each parameter,
     # whatever was stripped before in the same file (same parameter text in a function and a macro, member implementations, nesting)
     obs += seqs.seq_obligations('C03.c', ['function', 'macro', 'endfunction', 'endmacro', 'cmake_parse_arguments', 'cpp_class', 'cpp_member', 'message'], 3 if quick else 4, 1 if quick else 2, timeout=400 if quick else 2400, free=True)
